@@ -865,3 +865,108 @@ Proof.
   - intros. eapply finish_srel; eauto using reach_closed, reach_owns, reach_self.
   - intros. eapply finish_own_actions; eauto.
 Qed.
+
+(* ------------------------------------------------------------------------------------ *)
+(* the last activator ends: the restarted instances (children of the reference instance f with
+   the same flow id) are stopped as well *)
+Definition restarted_child (s : st) (f : uid) (fid : N) (c : uid) : Prop :=
+  exists ci fi, getf s c = Some ci /\ i_flow ci = fid /\ i_parent ci = Some f /\
+                getf s f = Some fi /\ i_flow fi = fid.
+
+Lemma restarted_child_stable : forall (R A : uid -> Prop) s t f fid c,
+  Srel R A s t -> restarted_child s f fid c -> restarted_child t f fid c.
+Proof.
+  intros R A s t f fid c S (ci & fi & Ec & Hfl & Hp & Ef & Hff).
+  destruct (srel_fwd _ _ _ _ _ _ S Ec) as (ci' & Ec' & (F1 & P1 & _)).
+  destruct (srel_fwd _ _ _ _ _ _ S Ef) as (fi' & Ef' & (F2 & _)).
+  exists ci', fi'. repeat split; auto; congruence.
+Qed.
+
+Lemma restarted_child_proceeds : forall s f fid c, restarted_child s f fid c -> proceeds s c true = true.
+Proof.
+  intros s f fid c (ci & fi & Ec & Hfl & Hp & Ef & Hff).
+  unfold proceeds, is_ref_activated. rewrite Ec, Hp, Ef, Hfl, Hff, N.eqb_refl. simpl.
+  destruct (0 <? i_activated ci)%Z; auto.
+Qed.
+
+Section SameDone.
+  Variable rk : uid -> nat.
+  Variable ab : st -> uid -> bool -> res st.
+  Hypothesis Hab2 : forall Z s c d s',
+    ranked rk s -> Zinv Z s -> ab s c d = Ok s' ->
+    Seg Z s s' /\ (proceeds s c d = true -> lv s' c = false).
+
+  Lemma abort_same_done : forall f fid l s s',
+    ranked rk s -> abort_same ab fid l s = Ok s' ->
+    Srel anyR anyA s s' /\
+    forall c, In c l -> restarted_child s f fid c -> lst s' c = false.
+  Proof.
+    induction l as [|c0 l IH]; simpl; intros s s' Hr H.
+    - inversion H; subst. split; [apply Srel_refl|tauto].
+    - destruct (getf s c0) as [c0i|] eqn:E0; try discriminate.
+      destruct (N.eqb (i_flow c0i) fid) eqn:Efid.
+      + bind_inv H.
+        destruct (Hab2 (fun _ => False) _ _ _ _ Hr (fun _ _ F => False_ind _ F) Hb) as (G1 & Hp).
+        assert (S1 : Srel anyR anyA s s0) by apply G1.
+        assert (S2 : Srel anyR anyA s0 (modf s0 c0 (set_activated 0%Z))) by (apply modf_srel_activated0; exact I).
+        assert (S12 : Srel anyR anyA s (modf s0 c0 (set_activated 0%Z))) by (eapply Srel_trans; eauto).
+        destruct (IH _ _ (srel_ranked _ _ _ _ _ S12 Hr) H) as (S3 & Hd).
+        split; [eapply Srel_trans; eauto|].
+        intros c Hin Hrc.
+        destruct (in_dec N.eq_dec c l) as [Hl|Hnl].
+        * apply Hd; auto. eapply restarted_child_stable; eauto.
+        * destruct Hin as [<-|Hin]; [|contradiction].
+          eapply lst_mono; [exact S3|]. eapply lst_mono; [exact S2|].
+          apply lst_lv. apply Hp. eapply restarted_child_proceeds; eauto.
+      + destruct (IH _ _ Hr H) as (S3 & Hd). split; auto.
+        intros c [<-|Hin] Hrc; auto.
+        destruct Hrc as (ci & fi & Ec & Hfl & _). rewrite E0 in Ec. inversion Ec; subst.
+        rewrite N.eqb_refl in Efid. discriminate.
+  Qed.
+End SameDone.
+
+Theorem deactivate_last_children : forall rk n s f s' i,
+  ranked rk s -> getf s f = Some i -> is_ref_activated s i = Ok true -> i_activated i = 1%Z ->
+  abort n s f true = Ok s' ->
+  forall c ci, In c (i_children i) -> getf s c = Some ci -> i_flow ci = i_flow i ->
+    i_parent ci = Some f -> lst s' c = false.
+Proof.
+  intros rk n s f s' i Hr E Href Hone H c ci Hin Ec Hfl Hpar.
+  destruct n as [|n]; simpl in H; try discriminate.
+  apply bind_ok in H. destruct H as ([s3 go] & Hpr & H). simpl in H.
+  (* expose the deactivate prologue *)
+  assert (Hdx : exists s1, deactivate (abort n) s f true = Ok (s1, true) /\ Srel anyR anyA s1 s').
+  { destruct go.
+    - destruct (prologue_inv rk (abort n) (abort_srel rk n) _ _ _ _ _ _ Hr Hpr E)
+        as (s1 & s0 & i1 & i2 & Hd & E1 & Hsk & Hch & E2 & Hsa & _).
+      exists s1; split; auto.
+      assert (Hr1 : ranked rk s1).
+      { eapply srel_ranked; [|exact Hr].
+        eapply (deactivate_srel rk (abort n) (abort_srel rk n) anyR anyA); eauto using anyR_closed, anyA_owns; exact I. }
+      eapply Srel_trans; [|eapply Srel_trans].
+      + eapply (abort_children_srel rk (abort n) (abort_srel rk n) anyR anyA (i_children i1));
+          eauto using anyR_closed, anyA_owns. apply Forall_forall; intros; exact I.
+      + eapply stop_actions_srel; eauto; intros; exact I.
+      + destruct (prologue_out rk n _ _ _ _ _ _ Hr Hpr E) as (_ & i3 & _ & _ & E3 & Hsk3 & _).
+        eapply epilogue_abort_srel; eauto using skip_abort_live. exact I.
+    - inversion H; subst s3.
+      unfold prologue in Hpr. apply bind_ok in Hpr. destruct Hpr as ([s1 b] & Hd & Hpr). simpl in Hpr.
+      assert (Hp : proceeds s f true = true) by (unfold proceeds; rewrite E, Href, Hone; auto).
+      destruct (deactivate_seg rk (abort n) (abort_good rk n) (act0 s) _ _ _ _ _ Hr (act0_zinv s) Hd) as (_ & Hb).
+      specialize (Hb Hp). subst b.
+      destruct (getf s1 f) as [i1|]; try discriminate.
+      destruct (skip_abort (i_status i1)).
+      + inversion Hpr; subst. exists s'; split; auto. apply Srel_refl.
+      + bind_inv Hpr. destruct (getf s0 f); try discriminate. bind_inv Hpr. discriminate. }
+  destruct Hdx as (s1 & Hd & S1).
+  unfold deactivate in Hd. rewrite E, Href in Hd. simpl in Hd. rewrite Hone in Hd. simpl in Hd.
+  bind_inv Hd. inversion Hd; subst s0.
+  set (sm := modf s f (set_activated (1 - 1)%Z)) in *.
+  assert (Sm : Srel anyR anyA s sm).
+  { unfold sm. rewrite (modf_some _ _ _ _ E). apply srel_set_activated; unfold anyR; auto. }
+  destruct (abort_same_done rk (abort n) (abort_good rk n) f (i_flow i) (i_children i) sm s1
+              (srel_ranked _ _ _ _ _ Sm Hr) Hb) as (_ & Hdone).
+  eapply lst_mono; [exact S1|]. apply Hdone; auto.
+  eapply restarted_child_stable; [exact Sm|].
+  exists ci, i. repeat split; auto.
+Qed.
